@@ -43,6 +43,10 @@ func (b LabelDescriptors) Len() int {
 	return len(b)
 }
 func (b LabelDescriptors) Less(i, j int) bool {
+	// labels are listed in the order of their keys, i.e. by name
+	if b[i].Name != b[j].Name {
+		return b[i].Name < b[j].Name
+	}
 	return b[i].BundleID < b[j].BundleID
 }
 
